@@ -10,7 +10,7 @@ FLOAT_KINDS = {'split', 'decompose'}      # float-mode companion (core.float_com
 FLOAT_TOL = 1e-8
 STATS = G.STATS
 PARTIAL = [
-    "proved end to end through splitDir / decomposeDir / decomposeUV (spans found by find_span_linear, closed end parameters included): split_curve, split_surface_u / split_surface_v (both pieces = original under the affine domain maps; other direction under the normalisation map of its knot vector), decompose_curve and decompose_surface 'u' / 'v' / 'uv' (exactly one Bezier piece per non-empty knot interval / pair of intervals, in order, each coinciding on its interval / rectangle). Hypotheses: degree >= 1, clamped knot vector in the split direction, inner knots repeated at most p times, find_multiplicity's tolerance separates the parameter from the other knots (decomposition: any two knots, domain length <= 1; surfaces: the other direction's knot vector normalised). Not proved: unclamped knot vectors, degree 0, inner knots of multiplicity > p, un-normalised other-direction knot vector in decompose_surface, volumes; checked by the exact oracle",
+    "proved end to end through splitDir / decomposeDir / decomposeUV (spans found by find_span_linear, closed end parameters included): split_curve, split_surface_u / split_surface_v (both pieces = original under the affine domain maps; other direction under the normalisation map of its knot vector), decompose_curve and decompose_surface 'u' / 'v' / 'uv' (exactly one Bezier piece per non-empty knot interval / pair of intervals, in order, each coinciding on its interval / rectangle). Hypotheses: degree >= 1, inner knots repeated at most p times, find_multiplicity's tolerance separates the parameter from the other knots; the SPLIT theorems (curve, surface u, surface v) hold for clamped AND unclamped knot vectors in the split direction (split_unclamped_*: sorted knots, domain [U_p, U_n] with a non-empty last span; each piece evaluated at the affine image of t in its own domain, which is [(U_p-U_0)/(u-U_0), 1] resp. [0, (U_n-u)/(U_{n+p}-u)] because the constructor normalises the piece's whole knot range; rejection at both domain ends U_p, U_n); the DECOMPOSITION theorems assume a clamped knot vector in the decomposed direction (any two knots separated, domain length <= 1; surfaces: the other direction's knot vector normalised). Not proved: decomposition of unclamped inputs (there the first and last piece returned by the code are single-span segments with p+1 control points over an unclamped knot vector, not Bezier segments; count and coincidence are checked by the exact oracle only on clamped inputs), degree 0, inner knots of multiplicity > p, un-normalised other-direction knot vector in decompose_surface, volumes; checked by the exact oracle",
 ]
 
 
